@@ -86,6 +86,8 @@ fn value_bytes() -> impl Strategy<Value = Vec<u8>> {
         8 => prop::collection::vec(prop_oneof![6 => prop::sample::select(b"ab=/ 01".to_vec()), 1 => prop::sample::select(vec![0x80u8, 0xff, 0xc3]), 1 => 1u8..=255u8], 0..=10),
         2 => utf8_arg(),
         1 => prop::collection::vec(prop::sample::select(b"xy=".to_vec()), 40..=200),
+        // long values (pages of text): a length or copy limit inside the lookup shows only here
+        1 => (prop::collection::vec(prop::sample::select(b"long-value=/".to_vec()), 1..=7), prop::sample::select(vec![4095usize, 4096, 4097, 6000, 20_000, 70_000])).prop_map(|(unit, n)| unit.iter().cycle().take(n).copied().collect::<Vec<u8>>()),
     ]
 }
 
@@ -183,7 +185,16 @@ fn builds(thorough: bool, quick_n: usize) -> BoxedStrategy<Vec<u8>> {
 /// Full start-up case.
 pub fn startup_case(thorough: bool) -> impl Strategy<Value = Case> {
     // (no prop_flat_map: unions of vec strategies shrink towards their first, smallest alternative)
-    let rest = prop_oneof![2 => prop::collection::vec(arg(), 0..=0), 6 => prop::collection::vec(arg(), 1..=6), 3 => prop::collection::vec(arg(), 7..=40), 1 => prop::collection::vec(arg(), 40..=40)];
+    // short_arg: many arguments are made of short ones (the total stays far below ARG_MAX)
+    let short_arg = prop::collection::vec(arg_byte(), 0..=3).prop_map(|b| Arg::B(BStr(b)));
+    let rest = prop_oneof![
+        4 => prop::collection::vec(arg(), 0..=0),
+        12 => prop::collection::vec(arg(), 1..=6),
+        6 => prop::collection::vec(arg(), 7..=40),
+        2 => prop::collection::vec(arg(), 40..=40),
+        // hundreds of arguments: counts beyond one byte (255/256/257) and well beyond
+        1 => (prop::sample::select(vec![254usize, 255, 256, 257, 300, 1000]), prop::collection::vec(short_arg, 8)).prop_map(|(n, pool)| (0..n).map(|i| pool[(i * 7 + i / 8) % pool.len()].clone()).collect::<Vec<Arg>>()),
+    ];
     let argv = (arg(), rest, prop_oneof![12 => Just(None), 1 => (long_arg(), any::<u16>()).prop_map(Some)]).prop_map(
         |(a0, mut rest, long)| {
             if let Some((l, pos)) = long {
